@@ -357,6 +357,9 @@ type CR3Opts struct {
 	Use64    bool // allow 64-bit box headers
 	Brands   int  // further compatible brands in ftyp (cameras write two)
 	TopExtra bool // unknown/free boxes between any two top-level boxes (also right after ftyp)
+	// CTBO: 0 = four records and count 4; otherwise records = 4 + CTBO%4 (index fields 1, 2, ...) and
+	// the count field = records + CTBO/4 (a count that says more than the box holds when CTBO >= 4)
+	CTBO int
 	// PrvwField != 0: the jpeg-size field of the PRVW header says len(Preview)+PrvwField (the box
 	// itself is sized by what it holds) and a free box follows PRVW inside the preview uuid box
 	PrvwField int
@@ -380,8 +383,13 @@ func DrawCR3(l *core.Lane, o CR3Opts) *CR3 {
 	if o.Surround && l.Bool() {
 		inner = append(inner, Box("CCTP", be32(0), be32(1), be32(3), Box("CCDT", make([]byte, 16)), Box("CCDT", make([]byte, 16)))...)
 	}
-	ctbo := be32(4)
-	for i := 1; i <= 4; i++ {
+	nrec, ncount := 4, 4
+	if o.CTBO > 0 {
+		nrec = 4 + o.CTBO%4
+		ncount = nrec + o.CTBO/4
+	}
+	ctbo := be32(uint32(ncount))
+	for i := 1; i <= nrec; i++ {
 		ctbo = append(ctbo, be32(uint32(i))...)
 		ctbo = append(ctbo, make([]byte, 4)...)
 		ctbo = append(ctbo, be32(uint32(l.Intn(1<<20)))...)
